@@ -797,3 +797,8 @@ func SortedKeys[V any](m map[string]V) []string {
 	sort.Strings(ks)
 	return ks
 }
+
+// S_spawn starts a harness task from event context (scheduler goroutine).
+//
+//go:norace
+func S_spawn(fn func()) { S.spawn("event-task", "harness", fn) }
